@@ -108,7 +108,7 @@ func cmdFn(args []string) {
 				bad++
 			}
 			if *verbose || o.Result != "discharged" {
-				fmt.Printf("   %s %-60s %-10s %s [%s] %s\n", mark, o.Name, o.Result, o.Pos, strings.Join(o.Props, ","), o.Text)
+				fmt.Printf("   %s %-60s %-10s %6.2fs %-10s %s [%s] %s\n", mark, o.Name, o.Result, o.Secs, o.Solver, o.Pos, strings.Join(o.Props, ","), o.Text)
 				if o.Result != "discharged" {
 					fmt.Printf("        %s\n", o.Detail)
 				}
